@@ -9,6 +9,7 @@ import (
 	"strings"
 	"time"
 
+	"reservoir/metrics"
 	"reservoir/zzverif/vnet"
 	"reservoir/zzverif/vrun"
 	"reservoir/zzverif/vtime"
@@ -358,6 +359,36 @@ func scenarioFresh(c *vrun.Ctx) {
 			env.close()
 		}
 	}
+	// ---- the origin's Date lies in the proxy's past (a CDN that keeps the original Date, a slow origin
+	// clock) and the lifetime comes from Expires: it ends at the Expires date, not at "stored + (Expires - Date)" ----
+	for _, back := range []time.Duration{time.Hour, 2 * time.Hour} {
+		for _, expIn := range []time.Duration{-time.Hour, 8 * time.Second} {
+			caseNo++
+			if !c.Mine(caseNo) {
+				continue
+			}
+			c.Case()
+			env := newEnv(envOpts{Backend: p.Backend, DefaultMaxAgeS: 3600})
+			uri := env.uniq("d")
+			t0 := vtime.Peek()
+			env.origin.Put(uri, &vnet.Res{Name: "d" + strconv.Itoa(env.seq), Size: 24, DateSkew: -back, NoConditionals: true, Headers: vnet.H{{"Expires", httpDate(t0.Add(expIn))}}})
+			desc := fmt.Sprintf("origin Date %v behind the proxy's clock, Expires %v from now, no Cache-Control", back, expIn)
+			env.do("GET", uri, nil, "")
+			at := 3 * time.Second
+			if expIn > 0 {
+				at = expIn + 3*time.Second
+			}
+			vtime.Advance(at)
+			env.origin.Bump(uri)
+			resp, reqs := env.do("GET", uri, nil, "")
+			c.Outcome(fmt.Sprintf("date-behind=%v expires=%v contact=%v %s", back, expIn, len(reqs) > 0, resp.Header.Get("X-Cache")))
+			if len(reqs) == 0 {
+				c.SetCase(desc)
+				c.Violation("C03/fresh/skew/served-after-expires-date", fmt.Sprintf("a request %v after storing (past the Expires date) was served without contacting the origin (X-Cache=%q Cache-Status=%q) | %s", at, resp.Header.Get("X-Cache"), resp.Header.Get("Cache-Status"), desc), nil)
+			}
+			env.close()
+		}
+	}
 	c.Res.Bounds["header_classes"] = len(classes)
 	c.Res.Bounds["policies"] = len(policies) * len(defaults)
 	c.Res.Bounds["gap_patterns"] = 9
@@ -591,7 +622,13 @@ func runMethodStatusCase(c *vrun.Ctx, env *penv, ignore, force bool, method stri
 		if method == "POST" || method == "PUT" || method == "PATCH" {
 			body = "payload"
 		}
+		entriesBefore := metrics.Global.Cache.CacheEntries.Get()
 		resp, reqs := env.do(method, uri, nil, body)
+		if grew := metrics.Global.Cache.CacheEntries.Get() - entriesBefore; grew > 0 && !(method == "GET" && status == 200) {
+			c.SetCase(desc)
+			c.Violation("C04/fresh/store/stored-non-200-or-non-GET/"+method+"/"+strconv.Itoa(status), fmt.Sprintf("step %d: the answer to %s (status %d) was put into the store (entries +%d, Cache-Status %q): only 200 answers to GET are storable | %s", step, method, status, grew, resp.Header.Get("Cache-Status"), desc), nil)
+			return
+		}
 		contact := len(reqs) > 0
 		if contact {
 			pattern += "C"
